@@ -284,6 +284,42 @@ func VerifC15RoundDigits() {
 	}
 }
 
+// the text of the values that are not finite, and of the zeros: inf, -inf, nan
+// (whatever the NaN's payload and sign), 0.0 and -0.0, for str and repr alike.
+// (The digits of finite values come from strconv's shortest formatting, which
+// has no SMT counterpart: outside, see DESIGN.md 8.8.)
+//
+//verif:property C15
+//verif:havoc int:text
+//verif:expect called
+func VerifC15SpecialText() {
+	f := verifFloat64("f")
+	verifAssume(math.IsNaN(f) || math.IsInf(f, 0) || f == 0)
+	var got Object
+	var err error
+	if verifChoice("how", 2) == 0 {
+		got, err = Str(Float(f))
+	} else {
+		got, err = Repr(Float(f))
+	}
+	verifReach("called")
+	verifAssert(err == nil, "no error")
+	s, ok := got.(String)
+	verifAssert(ok, "the text of a float is a string")
+	switch {
+	case math.IsNaN(f):
+		verifAssert(s == "nan", "nan is spelled nan")
+	case math.IsInf(f, 1):
+		verifAssert(s == "inf", "positive infinity is spelled inf")
+	case math.IsInf(f, -1):
+		verifAssert(s == "-inf", "negative infinity is spelled -inf")
+	case math.Signbit(f):
+		verifAssert(s == "-0.0", "negative zero is spelled -0.0")
+	default:
+		verifAssert(s == "0.0", "zero is spelled 0.0")
+	}
+}
+
 //verif:property C15
 //verif:expect called
 func VerifC15NegAbsBool() {
